@@ -26,6 +26,10 @@ func (b *verifEventBackend) SendMetricsAsync(ctx context.Context, mm *gostatsd.M
 	cb(nil)
 }
 func (b *verifEventBackend) SendEvent(ctx context.Context, e *gostatsd.Event) error {
+	// a backend honours the context it is given: a delivery whose context is already done fails
+	if err := ctx.Err(); err != nil {
+		return err
+	}
 	if b.parkedIn != nil {
 		verifAssert(verifWaitGroupCount(&b.parkedIn.wg) > 0, "the cloud stage released its wait group before a parked event reached the backends (WaitForEvents could return early)")
 	}
@@ -265,8 +269,20 @@ func verifC19Two(nBackends int) {
 		verifAssert(n1 == 1 && n2 == 1 && b1 == 0 && b2 == 0, "both event lines are accepted")
 		verifReach("two-senders")
 	}
+	// a metric batch of the first sender may be waiting for the same lookup
+	withMetric := nondetBool()
+	if withMetric {
+		mm := gostatsd.NewMetricMap(false)
+		mm.Counters["m"] = map[string]gostatsd.Counter{"": {Value: 1, Source: ipA, Timestamp: 1}}
+		ch.DispatchMetricMap(ctx, mm)
+	}
 	tagged := map[gostatsd.Source]bool{}
 	if cache.mode == 0 {
+		if withMetric {
+			verifAssert(len(ch.incomingMetrics) == 1, "a metric batch with an unknown sender is handed to the lookup loop")
+			ch.handleIncomingMetrics(<-ch.incomingMetrics)
+			verifReach("metric-and-events-parked")
+		}
 		verifAssert(len(ch.incomingEvents) == 2, "events with unknown senders are handed to the lookup loop")
 		for _, r := range recs {
 			verifAssert(len(r.events) == 0, "an event must not reach a backend before its sender's lookup completed")
